@@ -131,7 +131,7 @@ def check(case) -> Outcome:
     classes = [f for f in feats if f in ("and", "or", "not", "not_over_and", "not_over_or", "or_same_vars", "pred",
                                          "truth", "membership", "chained", "idx", "call", "literal_left",
                                          "generator_domain", "mixed_types", "no_cond", "empty_domain",
-                                         "not_under_not")]
+                                         "not_under_not", "shared_term_objects")]
     classes.append("decl_" + case["vars"][0]["decl"])
     try:
         built = build_query(case, objs)
@@ -153,7 +153,7 @@ def check(case) -> Outcome:
 
 
 def render(case):
-    return {"domain": [f"{r['cls']}(k={r['k']},a={r['a']},b={r['b']},s={r['s']!r},tags={r.get('tags')},ref=#{r.get('ref', 0) + 1})"
+    return {"domain": [f"{r['cls']}(k={r['k']},a={r.get('a')},b={r.get('b')},s={r.get('s')!r},tags={r.get('tags')},ref=#{r.get('ref', 0) + 1})"
                        for i, r in enumerate(case["ents"]) if i in case["doms"][0]],
             "decl": case["vars"][0]["decl"], "dom_kind": case["dom_kind"],
             "cond": A.r_cond(case["cond"]) if case.get("cond") is not None else None}
